@@ -1,6 +1,12 @@
 (* Pinned statements of C06: re-checked on every run. *)
-From SF Require Import Base.Prelude Gen.Generated Unsized.Types Unsized.Parse Unsized.Machine Unsized.Ops Unsized.Proofs.EncodeParse Unsized.Proofs.Mem Unsized.Proofs.Notify Unsized.Proofs.Flat Unsized.Proofs.Layout Unsized.Proofs.Path Unsized.Proofs.Resize Unsized.Proofs.GenOps Unsized.Proofs.History Properties.C06.
+From SF Require Import Base.Prelude Gen.Generated Unsized.Types Unsized.Parse Unsized.Machine Unsized.Ops Unsized.Run Unsized.Proofs.EncodeParse Unsized.Proofs.Mem Unsized.Proofs.Notify Unsized.Proofs.Flat Unsized.Proofs.Layout Unsized.Proofs.Observe Unsized.Proofs.Path Unsized.Proofs.Context Unsized.Proofs.FocusOps Unsized.Proofs.NotifyInside Unsized.Proofs.Resize Unsized.Proofs.GenOps Unsized.Proofs.History Unsized.Proofs.Init Unsized.Proofs.History2 Unsized.Proofs.ExecTie Unsized.Proofs.ExecTie2 Unsized.Proofs.Keyed Unsized.Proofs.NotifyInside2 Unsized.Proofs.SetData Properties.C06.
 
+Check (C06_all_ops_failure_is_clean :
+  forall ovf t v s top pi0 o code,
+    RepF pi0 t v s top -> oerrX (m_cap s) (m_refuse s) t v o = Some code ->
+    exists top1, menter ovf t s top [] (xfocus o) = Ok top1 /\
+      (mopX t s top1 o = Err code /\ RepF (xfocus o) t v s top1 \/
+       (exists top0, mopX t s top1 o = Ok (s, top0, [-1; code]) /\ RepF (xfocus o) t v s top0))).
 Check (C06_general_failure_is_clean :
   forall ovf t v s top pi0 o code,
     RepF pi0 t v s top -> oerrG (m_cap s) (m_refuse s) t v o = Some code ->
@@ -39,6 +45,7 @@ Check (C06_flat_continue_after_failure :
 Check (C06_realloc_refusal_precedes_writes :
   forall s n, m_len s < n -> m_refuse s = 1 -> realloc s n = Err E_REALLOC).
 
+Print Assumptions C06_all_ops_failure_is_clean.
 Print Assumptions C06_general_failure_is_clean.
 Print Assumptions C06_general_continue_after_failures.
 Print Assumptions C06_flat_growth_refused_is_clean.
